@@ -8,5 +8,6 @@ CONSTANTS
   TD <- ToDec
   NT <- NumText
   NTL <- NumTextLoc
+  CV <- Convert
 INVARIANTS LawUtf8RoundTrip LawUtf8Shape LawUtf8Truncated LawUtf8Pairs
 CHECK_DEADLOCK FALSE
